@@ -3,12 +3,14 @@ import EaselModel.Buffer.ListLemmas
 namespace EaselModel.Buffer
 
 /-- The window invariant: `mem` is the slice of the input that starts at `base`, `rest` is what follows it;
-    the cursor is inside the window; the anchor is at or before the cursor; the end-of-file flag and a missing
-    stream both mean that nothing is left to read. -/
+    the cursor is inside the window; the anchor is inside the window (at or before the cursor in every history inside
+    the API contract, but `esl_buffer_SetAnchor` accepts any offset of the window and an in-window rewind may go before
+    the anchor: since b86a62d the code copes with an anchor ahead of the cursor, and so does this invariant); the
+    end-of-file flag and a missing stream both mean that nothing is left to read. -/
 structure WF (b : Buf) : Prop where
   hwin : b.src.drop b.base = b.mem ++ b.rest
   hpos : b.pos ≤ b.n
-  hanch : ∀ a, b.anchor = some a → a ≤ b.pos
+  hanch : ∀ a, b.anchor = some a → a ≤ b.n
   hps : 0 < b.pagesize
   heof : b.eof = true → b.rest = []
   hnofp : b.hasfp = false → b.rest = []
@@ -44,7 +46,7 @@ theorem WF.suffix_at {b : Buf} (h : WF b) (k : Nat) (hk : k ≤ b.n) :
 /-! ### dropFront -/
 
 theorem dropFront_wf {b : Buf} (h : WF b) (ndel : Nat) (hd : ndel ≤ b.pos)
-    (ha : ∀ a, b.anchor = some a → a = 0) : WF (dropFront b ndel) := by
+    (ha : ∀ a, b.anchor = some a → a + ndel ≤ b.n) : WF (dropFront b ndel) := by
   have hp := h.hpos
   refine ⟨?_, ?_, ?_, h.hps, h.heof, h.hnofp⟩
   · show b.src.drop (b.base + ndel) = b.mem.drop ndel ++ b.rest
@@ -52,8 +54,9 @@ theorem dropFront_wf {b : Buf} (h : WF b) (ndel : Nat) (hd : ndel ≤ b.pos)
   · show b.pos - ndel ≤ (b.mem.drop ndel).length
     simp only [List.length_drop, Buf.n] at *; omega
   · intro a haa
-    show a ≤ b.pos - ndel
-    have := ha a haa; omega
+    show a ≤ (b.mem.drop ndel).length
+    have := ha a haa
+    simp only [List.length_drop, Buf.n] at *; omega
 
 theorem dropFront_frame (b : Buf) (ndel : Nat) (hd : ndel ≤ b.pos) (hp : b.pos ≤ b.n) : Frame b (dropFront b ndel) := by
   refine ⟨rfl, rfl, rfl, rfl, ?_, ?_⟩
@@ -70,11 +73,14 @@ theorem dropFront_avail (b : Buf) (ndel : Nat) (hd : ndel ≤ b.pos) (hp : b.pos
 /-! ### fread -/
 
 theorem fread_wf {b : Buf} (h : WF b) (k : Nat) : WF (fread b k) := by
-  refine ⟨?_, ?_, h.hanch, h.hps, ?_, ?_⟩
+  refine ⟨?_, ?_, ?_, h.hps, ?_, ?_⟩
   · show b.src.drop b.base = (b.mem ++ b.rest.take k) ++ b.rest.drop k
     rw [List.append_assoc, List.take_append_drop]; exact h.hwin
   · show b.pos ≤ (b.mem ++ b.rest.take k).length
     have := h.hpos; simp only [List.length_append, Buf.n] at *; omega
+  · intro a ha
+    show a ≤ (b.mem ++ b.rest.take k).length
+    have := h.hanch a ha; simp only [List.length_append, Buf.n] at *; omega
   · intro he
     show b.rest.drop k = []
     simp only [fread, Bool.or_eq_true, decide_eq_true_eq, List.length_take] at he
@@ -106,14 +112,23 @@ theorem shiftLeft_spec {b : Buf} (h : WF b) :
       exact ⟨_, rfl, dropFront_wf h b.pos (Nat.le_refl _) (by simp [ha]), dropFront_frame b b.pos (Nat.le_refl _) hp, rfl,
         dropFront_avail b b.pos (Nat.le_refl _) hp⟩
     | some a =>
-      have hap := h.hanch a ha
-      simp only [hap, if_true]
-      have hwf0 : WF { b with anchor := some 0 } :=
-        ⟨h.hwin, h.hpos, by intro x hx; simp at hx; omega, h.hps, h.heof, h.hnofp⟩
-      have hfr0 : Frame b { b with anchor := some 0 } := ⟨rfl, rfl, rfl, rfl, rfl, Nat.le_refl _⟩
-      exact ⟨_, rfl, dropFront_wf hwf0 a hap (by intro x hx; simp at hx; omega),
-        hfr0.trans (dropFront_frame { b with anchor := some 0 } a hap hp), rfl,
-        dropFront_avail { b with anchor := some 0 } a hap hp⟩
+      have han := h.hanch a ha
+      by_cases hap : a ≤ b.pos
+      · simp only [hap, if_true]
+        have hwf0 : WF { b with anchor := some 0 } :=
+          ⟨h.hwin, h.hpos, by intro x hx; simp at hx; omega, h.hps, h.heof, h.hnofp⟩
+        have hfr0 : Frame b { b with anchor := some 0 } := ⟨rfl, rfl, rfl, rfl, rfl, Nat.le_refl _⟩
+        exact ⟨_, rfl, dropFront_wf hwf0 a hap (by intro x hx; simp at hx; show x + a ≤ b.n; omega),
+          hfr0.trans (dropFront_frame { b with anchor := some 0 } a hap hp), rfl,
+          dropFront_avail { b with anchor := some 0 } a hap hp⟩
+      · -- an anchor ahead of the cursor (b86a62d): everything from the cursor on is kept, the anchor moves with it
+        simp only [hap, if_false]
+        have hwf0 : WF { b with anchor := some (a - b.pos) } :=
+          ⟨h.hwin, h.hpos, by intro x hx; simp at hx; show x ≤ b.n; omega, h.hps, h.heof, h.hnofp⟩
+        have hfr0 : Frame b { b with anchor := some (a - b.pos) } := ⟨rfl, rfl, rfl, rfl, rfl, Nat.le_refl _⟩
+        exact ⟨_, rfl, dropFront_wf hwf0 b.pos (Nat.le_refl _) (by intro x hx; simp at hx; show x + b.pos ≤ b.n; omega),
+          hfr0.trans (dropFront_frame { b with anchor := some (a - b.pos) } b.pos (Nat.le_refl _) hp), rfl,
+          dropFront_avail { b with anchor := some (a - b.pos) } b.pos (Nat.le_refl _) hp⟩
   · exact ⟨b, rfl, h, Frame.refl b, rfl, rfl⟩
 
 theorem grow_spec {b : Buf} (h : WF b) :
